@@ -29,7 +29,7 @@ def gen_cases(tier, seed):
     cases = []
     for cap in (1, 2, 3, 4, 6):
         for wa in (True, False):
-            for kind in ('normal', 'vertical'):
+            for kind in ('normal', 'vertical', 'slow'):
                 cases.append(dict(capacity=cap, wa=wa, kind=kind, init_vd=0.25, max_dev=dev,
                                   set_ops=['Sa', 'Sb']))
     if tier == 'thorough':
